@@ -177,6 +177,19 @@ def primesLine (line : String) : String :=
       | "lehmannb", [n], [v] =>
         let specOk := if n < 2 then v == 0 else if n ≤ 3 then v == 1 else (v == 0 || v == 1)
         primesVerdict line specOk true "-"
+      | "factorl", [n, loops], [f] =>
+        -- factor(r, n, loops): the cascades are deterministic; with loops ≠ 0 the rho search may give up (1 or n) on a cofactor without
+        -- prime factor ≤ 97: then only "a positive divisor" is promised (Pollard's guards: n < 3 and primes are returned as they are)
+        let m := factor (fun _ => f) n
+        let small := Int.gcd n 223092870 != 1 || Int.gcd n 10334565887047481278774629361 != 1
+        let specOk := if loops == 0 || small then chkFactor n f
+          else if n < 3 || primeI n then f == n else decide (1 ≤ f) && n % f == 0
+        primesVerdict line specOk (m == f) (hexInt m)
+      | "iffactorprimel", [n, loops], [f] =>
+        let m := iffactorprime ispD (fun _ _ => f) (fun _ => f) (n.toNat + 2) n
+        -- bounded loops: the partial contract -- a divisor of n (or Lenstra's failure value -1 after Pollard gave up); a prime when loops = 0
+        let specOk := if loops == 0 then chkPrimeFactor n f else f == -1 || (decide (f ≠ 0) && n % f == 0)
+        primesVerdict line specOk (m == some f) (showOpt m)
       | "millers", [n, _seed], [a, v] =>
         -- Miller(g, n) right after Integer::seeding(seed); `a` = 2 + (first mpz_urandomm(n-3) of a state seeded alike), recomputed by the
         -- harness.  Specification (Props/C12MR.lean): guards; a prime passes; the base is in [2, n-2]; for odd n the answer is the strong
